@@ -145,11 +145,13 @@ Proof.
           rewrite QF. rewrite E3. rewrite filter_app.
           rewrite (filter_nothing _ A).
           2: { intros x I. unfold P'. rewrite existsb_key_in; auto. simpl. apply andb_false_r. }
-          simpl app. apply filter_all. intros x I. rewrite (RB _ I). simpl. unfold P'.
-          rewrite existsb_key_out; auto. intros a Ia. apply AB; auto. }
+          rewrite app_nil_l. apply filter_all. intros x I. rewrite (RB _ I). simpl. unfold P'.
+          rewrite existsb_key_out. auto. intros a Ia. apply AB; auto. }
         assert (Q2 : filter (notinr (Some k) lim) (filter P' s) = filter (notinr start lim) s).
         { rewrite filter_filter. apply filter_ext_in. intros x I.
-          unfold notinr, fkey. fold (inr (Some k) lim x). fold (inr start lim x).
+          assert (N1 : notinr (Some k) lim x = negb (inr (Some k) lim x)) by reflexivity.
+          assert (N2 : notinr start lim x = negb (inr start lim x)) by reflexivity.
+          rewrite N1, N2. clear N1 N2.
           destruct (inr start lim x) eqn:X.
           - assert (IFx : In x F). { unfold F. apply filter_In. auto. }
             rewrite E3 in IFx. apply in_app_or in IFx. destruct IFx as [IA|IB].
@@ -158,7 +160,7 @@ Proof.
           - destruct (inr (Some k) lim x) eqn:Y. { apply R2 in Y. congruence. }
             simpl. unfold P'.
             destruct (existsb (fun k0 => keqb k0 (fst x)) (map fst A)) eqn:Z; auto.
-            apply existsb_exists in Z. destruct Z as [k0 [Z1 Z2]]. apply keqb_eq in Z2. subst k0.
+            apply existsb_exists in Z. destruct Z as [kz [Z1 Z2]]. apply keqb_eq in Z2. subst kz.
             apply in_map_iff in Z1. destruct Z1 as [a [Z3 Z4]].
             assert (inr start lim a = true). { apply INF. rewrite E3. apply in_or_app. auto. }
             unfold inr, fkey in *. rewrite Z3 in H. congruence. }
@@ -175,3 +177,260 @@ Proof.
         apply ALL. auto.
 Qed.
 
+
+Lemma filter_len_le : forall {A} (f : A -> bool) l, length (filter f l) <= length l.
+Proof. induction l; simpl; auto. destruct (f a); simpl; lia. Qed.
+
+(* BatchRemove as called by [step] (fuel = number of keys + 1): never out of fuel, removes exactly the range *)
+Lemma batch_remove_exact : forall start lim limit s, sorted s -> limit <> 0%Z ->
+  batch_remove (S (length s)) start lim limit s 0 =
+    Some (filter (notinr start lim) s, Z.of_nat (length (filter (inr start lim) s))).
+Proof.
+  intros. rewrite batch_remove_spec; auto.
+  assert (length (filter (inr start lim) s) <= length s) by apply filter_len_le. lia.
+Qed.
+
+(* ------------------------------------------------------------------ isolation *)
+
+Definition through (o : op) : option nat :=
+  match o with
+  | OGet h _ | OExists h _ | OPut h _ _ | ODelete h _ | OBatch h _ | OIter h _ _ _ | ORemove h | OClose h => Some h
+  | _ => None
+  end.
+
+Definition inside (p : key) : key * val -> bool := fkey (is_prefix p).
+Definition outside (p : key) : key * val -> bool := fkey (fun k => negb (is_prefix p k)).
+
+Lemma filter_outside_idem : forall p s, filter (outside p) (filter (outside p) s) = filter (outside p) s.
+Proof. intros. rewrite filter_filter. apply filter_ext. intros. destruct (outside p a); auto. Qed.
+
+Lemma filter_inside_outside : forall p s, filter (inside p) (filter (outside p) s) = [].
+Proof.
+  intros. rewrite filter_filter. apply filter_nothing. intros. unfold inside, outside, fkey.
+  destruct (is_prefix p (fst x)); auto.
+Qed.
+
+Lemma pbatch_keys : forall p b r, In r (pbatch p b) ->
+  negb (is_prefix p (match r with BPut k _ => k | BDel k => k end)) = false.
+Proof.
+  unfold pbatch. intros. apply in_map_iff in H. destruct H as [x [E I]]. subst.
+  destruct x; rewrite is_prefix_app; auto.
+Qed.
+
+(* an operation through an open handle with prefix p changes nothing outside p *)
+Lemma outside_unchanged : forall st o h p, through o = Some h -> handle st h = Some p -> wf_store (raw st) ->
+  filter (outside p) (raw (fst (step st o))) = filter (outside p) (raw st).
+Proof.
+  intros st o h p T H W. destruct o; simpl in T; inversion T; subst; unfold step; simpl; rewrite ?H; auto.
+  - (* put *) unfold p_put, pkey. destruct k; simpl; auto. unfold outside.
+    apply sput_filter_other. change (n :: k) with ([] ++ n :: k). rewrite is_prefix_app. auto.
+  - (* delete *) unfold p_delete, pkey. destruct k; simpl; auto. unfold outside.
+    apply sdel_filter_other. rewrite is_prefix_app. auto.
+  - (* batch *) unfold p_batch. simpl. unfold outside. apply apply_batch_filter_other. apply pbatch_keys.
+  - (* remove *) unfold p_remove. simpl. rewrite remove_by_prefix_filter; auto. apply filter_outside_idem.
+Qed.
+
+(* a closed handle does nothing and reports an error *)
+Lemma closed_inert : forall st o h, through o = Some h -> handle st h = None ->
+  raw (fst (step st o)) = raw st /\ (snd (step st o) = RErr \/ o = OClose h).
+Proof.
+  intros st o h T H. destruct o; simpl in T; inversion T; subst; unfold step; simpl; rewrite ?H; auto.
+Qed.
+
+(* keys under q are outside p when neither prefix extends the other *)
+Lemma incomparable_outside : forall p q k, is_prefix p q = false -> is_prefix q p = false ->
+  is_prefix q k = true -> is_prefix p k = false.
+Proof.
+  intros. destruct (is_prefix p k) eqn:E; auto.
+  destruct (prefixes_comparable _ _ _ E H1); congruence.
+Qed.
+
+Lemma isolation : forall st o h p q, through o = Some h -> handle st h = Some p -> wf_store (raw st) ->
+  is_prefix p q = false -> is_prefix q p = false ->
+  filter (inside q) (raw (fst (step st o))) = filter (inside q) (raw st).
+Proof.
+  intros.
+  assert (G : forall s, filter (inside q) s = filter (inside q) (filter (outside p) s)).
+  { intros. rewrite filter_filter. apply filter_ext. intros [k v]. unfold inside, outside, fkey. simpl.
+    destruct (is_prefix q k) eqn:E; auto. rewrite (incomparable_outside p q k); auto. }
+  rewrite G. rewrite (G (raw st)). f_equal. eapply outside_unchanged; eauto.
+Qed.
+
+(* ------------------------------------------------------------------ nothing outside the prefix is observed *)
+
+Lemma sput_head : forall k v s, Forall (fun kv => klt k (fst kv) = true) s -> sput k v s = (k, v) :: s.
+Proof.
+  intros. destruct s as [|[k' v'] r]; simpl; auto. inversion H; subst. simpl in H2. unfold klt in H2.
+  destruct (kcmp k k'); auto; discriminate.
+Qed.
+
+Lemma sput_filter_same : forall f k v s, sorted s -> f k = true ->
+  filter (fkey f) (sput k v s) = sput k v (filter (fkey f) s).
+Proof.
+  unfold fkey. induction s as [|[k' v'] r]; simpl; intros SO F.
+  - rewrite F. auto.
+  - destruct SO as [S1 S2]. destruct (kcmp k k') eqn:E.
+    + apply kcmp_eq in E. subst. simpl. rewrite F. simpl. rewrite kcmp_refl. auto.
+    + simpl. rewrite F. destruct (f k') eqn:F'; simpl.
+      * rewrite E. auto.
+      * symmetry. apply sput_head. apply Forall_filter. eapply Forall_impl; [|exact S1]. simpl. intros.
+        apply klt_trans with k'; auto. unfold klt. rewrite E. auto.
+    + simpl. destruct (f k') eqn:F'; simpl.
+      * rewrite E. f_equal. auto.
+      * auto.
+Qed.
+
+Lemma sdel_filter_comm : forall f k s, filter f (sdel k s) = sdel k (filter f s).
+Proof.
+  intros. unfold sdel. rewrite !filter_filter. apply filter_ext. intros. apply andb_comm.
+Qed.
+
+Lemma sorted_apply_batch : forall b s, sorted s -> sorted (apply_batch b s).
+Proof.
+  unfold apply_batch. induction b; simpl; intros; auto. apply IHb. destruct a; simpl.
+  apply sorted_sput; auto. apply sorted_filter; auto.
+Qed.
+
+Lemma apply_batch_filter_same : forall f b s,
+  (forall r, In r b -> f (match r with BPut k _ => k | BDel k => k end) = true) -> sorted s ->
+  filter (fkey f) (apply_batch b s) = apply_batch b (filter (fkey f) s).
+Proof.
+  unfold apply_batch. induction b; simpl; intros; auto.
+  rewrite IHb; auto.
+  - f_equal. destruct a; simpl.
+    + apply sput_filter_same; auto. apply (H (BPut k v)). auto.
+    + apply sdel_filter_comm.
+  - destruct a; simpl. apply sorted_sput; auto. apply sorted_filter; auto.
+Qed.
+
+Lemma observe_only_inside : forall st1 st2 o h p, through o = Some h ->
+  handles st1 = handles st2 -> handle st1 h = Some p ->
+  wf_store (raw st1) -> wf_store (raw st2) -> sorted (raw st1) -> sorted (raw st2) ->
+  filter (inside p) (raw st1) = filter (inside p) (raw st2) ->
+  snd (step st1 o) = snd (step st2 o) /\
+  filter (inside p) (raw (fst (step st1 o))) = filter (inside p) (raw (fst (step st2 o))).
+Proof.
+  intros st1 st2 o h p T HS H W1 W2 S1 S2 E.
+  assert (H' : handle st2 h = Some p). { unfold handle in *. rewrite <- HS. auto. }
+  destruct o; simpl in T; inversion T; subst; unfold step; simpl; rewrite ?H, ?H'; auto.
+  - (* get *) split; auto. unfold p_get, pkey. destruct k; auto. f_equal.
+    rewrite <- (sget_filter (is_prefix p) _ (raw st1)) by apply is_prefix_app.
+    rewrite <- (sget_filter (is_prefix p) _ (raw st2)) by apply is_prefix_app.
+    unfold inside in E. rewrite E. auto.
+  - (* exists *) split; auto. unfold p_exists, pkey. destruct k; auto. f_equal.
+    rewrite <- (sget_filter (is_prefix p) _ (raw st1)) by apply is_prefix_app.
+    rewrite <- (sget_filter (is_prefix p) _ (raw st2)) by apply is_prefix_app.
+    unfold inside in E. rewrite E. auto.
+  - (* put *) unfold p_put, pkey. destruct k; simpl; auto. split; auto. unfold inside.
+    rewrite !sput_filter_same by (auto; apply is_prefix_app). unfold inside in E. rewrite E. auto.
+  - (* delete *) unfold p_delete, pkey. destruct k; simpl; auto. split; auto.
+    rewrite !sdel_filter_comm. rewrite E. auto.
+  - (* batch *) unfold p_batch. simpl. split; auto. unfold inside.
+    rewrite !apply_batch_filter_same; auto.
+    + unfold inside in E. rewrite E. auto.
+    + intros r I. apply pbatch_keys in I. destruct (is_prefix p match r with BPut k _ => k | BDel k => k end); auto.
+    + intros r I. apply pbatch_keys in I. destruct (is_prefix p match r with BPut k _ => k | BDel k => k end); auto.
+  - (* iter *) split; auto. destruct (rewrite_range p r) as [nr|] eqn:R.
+    2: { unfold p_iter. rewrite R. auto. }
+    rewrite !(p_iter_exact p r nr); auto.
+    assert (G : forall s, filter (fun kv : key * val => is_prefix p (fst kv) && user_in_range r (skipn (length p) (fst kv))) s =
+                          filter (fun kv => user_in_range r (skipn (length p) (fst kv))) (filter (inside p) s)).
+    { intros. rewrite filter_filter. apply filter_ext. intros. unfold inside, fkey. apply andb_comm. }
+    rewrite !G. rewrite E. auto.
+  - (* remove *) unfold p_remove. simpl. split; auto. rewrite !remove_by_prefix_filter; auto.
+    fold (outside p). rewrite !filter_inside_outside. auto.
+Qed.
+
+(* ------------------------------------------------------------------ invariants of every reachable state *)
+
+Definition wf_brec (r : brec) : Prop := match r with BPut k _ => wf_key k | BDel k => wf_key k end.
+Definition wf_op (o : op) : Prop :=
+  match o with
+  | OGet _ k | OExists _ k | OPut _ k _ | ODelete _ k | ORawPut k _ => wf_key k
+  | OBatch _ b => Forall wf_brec b
+  | _ => True
+  end.
+Definition wf_handle (h : option key) : Prop := match h with Some p => wf_key p | None => True end.
+Definition good (st : state) : Prop :=
+  wf_store (raw st) /\ sorted (raw st) /\ Forall wf_handle (handles st).
+
+Lemma wf_apply_batch : forall b s, Forall wf_brec b -> wf_store s -> wf_store (apply_batch b s).
+Proof.
+  unfold apply_batch. induction b; simpl; intros; auto. inversion H; subst. apply IHb; auto.
+  destruct a; simpl in *. apply wf_sput; auto. apply wf_filter; auto.
+Qed.
+
+Lemma wf_pbatch : forall p b, wf_key p -> Forall wf_brec b -> Forall wf_brec (pbatch p b).
+Proof.
+  unfold pbatch. intros. rewrite Forall_forall in *. intros x I. apply in_map_iff in I. destruct I as [y [E I]].
+  subst. specialize (H0 _ I). destruct y; simpl in *; apply wf_app; auto.
+Qed.
+
+Lemma wf_handle_nth : forall hs h, Forall wf_handle hs -> wf_handle (nth h hs None).
+Proof.
+  induction hs; destruct h; simpl; intros; auto; inversion H; subst; auto.
+Qed.
+
+Lemma wf_set_nth : forall hs h, Forall wf_handle hs -> Forall wf_handle (set_nth h None hs).
+Proof.
+  induction hs; destruct h; simpl; intros; auto; inversion H; subst; constructor; simpl; auto.
+Qed.
+
+Lemma sdel_all_sorted : forall ks s, sorted s -> sorted (sdel_all ks s).
+Proof. intros. rewrite sdel_all_filter. apply sorted_filter. auto. Qed.
+Lemma sdel_all_wf : forall ks s, wf_store s -> wf_store (sdel_all ks s).
+Proof. intros. rewrite sdel_all_filter. apply wf_filter. auto. Qed.
+
+Opaque batch_remove.
+Lemma step_good : forall st o, good st -> wf_op o -> good (fst (step st o)).
+Proof.
+  intros st o [W [S HS]] WO. unfold good.
+  assert (WH : forall h, wf_handle (handle st h)) by (intros; apply wf_handle_nth; auto).
+  destruct o; unfold step; simpl; auto.
+  - (* put *) specialize (WH h). unfold p_put, pkey. destruct (handle st h); simpl; auto. destruct k; simpl; auto.
+    repeat split; auto. apply wf_sput; auto. apply wf_app; auto. apply sorted_sput; auto.
+  - (* delete *) unfold p_delete, pkey. destruct (handle st h); simpl; auto. destruct k; simpl; auto.
+    repeat split; auto. apply wf_filter; auto. apply sorted_filter; auto.
+  - (* batch *) specialize (WH h). unfold p_batch. destruct (handle st h); simpl; auto.
+    repeat split; auto. apply wf_apply_batch; auto. apply wf_pbatch; auto. apply sorted_apply_batch; auto.
+  - (* remove *) unfold p_remove. destruct (handle st h); simpl; auto. unfold remove_by_prefix.
+    repeat split; auto. apply sdel_all_wf; auto. apply sdel_all_sorted; auto.
+  - (* close *) repeat split; auto. apply wf_set_nth; auto.
+  - (* raw put *) repeat split; auto. apply wf_sput; auto. apply sorted_sput; auto.
+  - (* raw remove by prefix *) unfold remove_by_prefix. repeat split; auto. apply sdel_all_wf; auto. apply sdel_all_sorted; auto.
+  - (* raw batch remove *)
+    set (rr := match r with Some r0 => r0 | None => mkRange None None end).
+    destruct (Z.eq_dec limit 0) as [->|NZ].
+    + rewrite batch_remove_zero. simpl. auto.
+    + rewrite batch_remove_exact; auto. simpl. repeat split; auto. apply wf_filter; auto. apply sorted_filter; auto.
+Qed.
+
+Definition run (st : state) (ops : list op) : state := fold_left (fun st o => fst (step st o)) ops st.
+Definition init (prefixes : list key) : state := mkState [] (map Some prefixes).
+
+Lemma run_good : forall ops st, good st -> Forall wf_op ops -> good (run st ops).
+Proof.
+  unfold run. induction ops; simpl; intros; auto. inversion H0; subst. apply IHops; auto. apply step_good; auto.
+Qed.
+
+Lemma init_good : forall prefixes, Forall wf_key prefixes -> good (init prefixes).
+Proof.
+  intros. unfold good, init. simpl. repeat split; auto. constructor.
+  induction H; simpl; constructor; auto.
+Qed.
+
+Lemma no_fuel : forall st o, good st -> snd (step st o) <> RFuel.
+Proof.
+  intros st o [W [S HS]]. destruct o; unfold step; simpl; try discriminate.
+  - unfold p_get. destruct (pkey _ _); discriminate.
+  - unfold p_exists. destruct (pkey _ _); discriminate.
+  - unfold p_put. destruct (pkey _ _); discriminate.
+  - unfold p_delete. destruct (pkey _ _); discriminate.
+  - unfold p_batch. destruct (handle st h); discriminate.
+  - unfold p_iter. destruct (handle st h); try discriminate. destruct (rewrite_range _ _); discriminate.
+  - unfold p_remove. destruct (handle st h); discriminate.
+  - set (rr := match r with Some r0 => r0 | None => mkRange None None end).
+    destruct (Z.eq_dec limit 0) as [->|NZ].
+    + rewrite batch_remove_zero. discriminate.
+    + rewrite batch_remove_exact; auto. discriminate.
+Qed.
